@@ -423,6 +423,18 @@ pub fn finish<const V: usize>(e: &mut Exec<V>) {
             return;
         }
     }
+    // C34: block state byte encoding round trip
+    for b in 0..=255u8 {
+        let (back, reusable) = mmtk::verif::immix_block_state_roundtrip(b);
+        if back != b {
+            e.violate("C34", "block-state-roundtrip", format!("block state byte {} decodes and re-encodes to {}", b, back));
+            return;
+        }
+        if reusable != (b != 0 && b != 255 && b != 254) {
+            e.violate("C34", "block-state-roundtrip", format!("block state byte {} classified reusable={}", b, reusable));
+            return;
+        }
+    }
     // page accounting at quiescence
     for s in mmtk::verif::space_infos(e.mmtk) {
         if s.reserved_pages > (1 << 40) || s.committed_pages > (1 << 40) {
